@@ -70,7 +70,8 @@ def level_of(sym):
 
 def fn_sexp(r, facts):
     return [facts['name'], facts['bound'], facts['read'], facts['readLocal'], facts['free'], facts.get('ns', r.get('namespace', [])),
-            facts.get('blockVarRoots', r.get('block_var_roots') or []), bool(facts.get('starCalls')), bool(facts.get('kwCalls'))]
+            facts.get('blockVarRoots', r.get('block_var_roots') or []), bool(facts.get('starCalls')), bool(facts.get('kwCalls')),
+            facts.get('nestedDefOnly', [])]
 
 
 def classify_line(case, r, facts):
@@ -148,6 +149,8 @@ def judge(case, r, facts, fixed_names, pairs):
                 relevant.append((x, cls))
         else:
             relevant.append((x, cls))
+    shared = {x for x, cls in pairs if cls == CLS_NESTED + ':shared_or_captured'}
+    relevant = [(x, cls) for x, cls in relevant if not cls.endswith(':shared_or_captured')]
     by_name = {}
     for x, cls in relevant:
         by_name.setdefault(x, []).append(cls)
@@ -169,14 +172,21 @@ def judge(case, r, facts, fixed_names, pairs):
             fails.append(('(i) new_symbol(%r) handed out the hard-coded identifier %r' % (s[0], x), cl[0] if cl else None, {'name': x}))
     if len(set(results)) != len(results):
         fails.append(('(i) new_symbol returned the same name twice in one conversion', None, {'names': results}))
+    # (iv) scope-aware, per use site (positions known to be generated from the isomorphic control conversion)
+    for sc in r.get('scope_clashes') or []:
+        fails.append(('(iv) generated code uses the name %r inside %s, where the user identifier %r is visible'
+                      % (sc[1], sc[0], sc[1]), sc[3] if len(sc) > 3 else None, {'name': sc[1], 'scope': sc[0]}))
     # (ii)/(iii) behaviour
-    anycls = relevant[0][1] if relevant else None
+    # behaviour: a nested-scope coincidence explains a behavioural difference only when the variable is shared / captured
+    behav = [(x, cls) for x, cls in relevant if cls != CLS_NESTED or x in shared]
+    anycls = behav[0][1] if behav else None
     if r.get('convert_error'):
         fails.append(('(ii) conversion fails: ' + r['convert_error'][:200], anycls, {}))
     for m in r.get('mismatches', [])[:1]:
         fails.append(('(%s) converted function differs from the original (%s%s)' % ('iii' if m.get('probe') else 'ii', m['what'],
                                                                                    ', at a probe of the user name' if m.get('probe') else ''),
                       anycls, m))
+    fails.sort(key=lambda f: f[1] is not None)      # an unclassified failure is never hidden behind a classified one
     return fails
 
 
@@ -418,7 +428,7 @@ def _check(run, only_case, facts0, voc, fixed_names, quick, procs, parent):
         for k in range(0, len(base_cases), 4):
             groups.append({'id': gid, 'cases': base_cases[k:k + 4], 'role': 'base', 'kind': 'base'})
             gid += 1
-        adv = build_groups(run, bases, voc, 1 if quick else 4)
+        adv = build_groups(run, bases, voc, 1 if quick else 3)
         # lambda entities (visit_Lambda / lscope / ag__lam): fixed templates, every vocabulary word
         lam_words = sorted(set(voc) | {'ag__lam', 'ag__lam_1', 'lscope_1'})
         for kind in sorted(N.LAMBDA_TEMPLATES):
@@ -463,6 +473,47 @@ def _check(run, only_case, facts0, voc, fixed_names, quick, procs, parent):
         xlines.append(e2e_line(r, facts))
     answers = run.drive(lines) if run.driver_ok and lines else None
     xanswers = run.drive(xlines) if run.driver_ok and xlines else None
+    # oracle (iv): class of a nested-scope clash = the class predicates evaluated on the facts of THAT scope
+    slines, sref = [], []
+    by_group = {}
+    for g, case, r, facts in flat:
+        by_group.setdefault(g['id'], []).append((case, r))
+    n_iv = {'compared': 0, 'not_comparable': 0}
+    for gid_, ent in by_group.items():
+        if by_id[gid_].get('kind') != 'adversarial' or not ent or ent[0][0].get('word') != N.NEUTRAL:
+            continue
+        cc, cr = ent[0]
+        if cr.get('load_error') or cr.get('convert_error'):
+            continue
+        for case, r in ent[1:]:
+            if r.get('load_error'):
+                continue
+            try:
+                sc = N.use_site_clashes(cc, cr, case, r)
+            except RecursionError:
+                sc = None
+            if sc is None:
+                n_iv['not_comparable'] += 1
+                continue
+            n_iv['compared'] += 1
+            # hard-coded identifiers have their own clash condition (hardClash); (iv) is about namer-generated names
+            r['scope_clashes'] = [x for x in sc if x[1] not in fixed_names]
+    run.cov['use_site_oracle(iv)'] = n_iv
+    for g, case, r, facts in flat:
+        for sc in r.get('scope_clashes') or []:
+            fu = dict(sc[2], ns=r.get('namespace', []))
+            slines.append(classify_line(case, dict(r, block_var_roots=[]), fu))
+            sref.append(sc)
+    n_scope_clashes = len(sref)
+    if run.driver_ok and slines:
+        for sc, ans in zip(sref, run.drive(slines)):
+            try:
+                _, _, _, sp = parse_classify(ans)
+            except Exception:
+                sp = []
+            cl = [c for x, c in sp if x == sc[1] and c in (CLS_BOUND_ONLY, CLS_NESTED)]
+            sc.append(cl[0] if cl else None)
+    run.cov['nested_scope_clashes(oracle iv)'] = n_scope_clashes
     dis_replay, dis_conv, dis_reads, dis_facts, dis_thm, dis_e2e, dis_why = [], [], [], [], [], [], []
     n_hyp_hold = 0
     why_dist, why_sets, e2e_stats = {}, {}, {'well_formed': 0, 'no_clash_class': 0, 'both': 0, 'not_well_formed_steps': {}}
